@@ -287,16 +287,19 @@ loop:
 	mu.Lock()
 	defer mu.Unlock()
 	res.stderr = stderr.String()
-	if res.killed {
-		res.done = false
+	if ee, ok := werr.(*exec.ExitError); ok {
+		res.exitCode = ee.ExitCode()
+	}
+	switch {
+	case res.done:
+		// the "$ done" marker is authoritative: everything was run and reported. (A -race
+		// binary exits 1 afterwards when the detector reported something; the reports are
+		// read from its log.)
+	case res.killed:
 		res.how = fmt.Sprintf("no progress for %s (killed)", silence)
-	} else if werr != nil {
-		res.done = false
+	case werr != nil:
 		res.how = werr.Error()
-		if ee, ok := werr.(*exec.ExitError); ok {
-			res.exitCode = ee.ExitCode()
-		}
-	} else if !res.done {
+	default:
 		res.how = "exited 0 without finishing"
 	}
 	return res
@@ -614,7 +617,7 @@ func ipow(b, e int) int {
 
 // ---------------------------------------------------------------- race pass
 
-var raceFrameRe = regexp.MustCompile(`(?m)^\s+(github\.com/inspirer/textmapper/[^\s(]+|main\.[^\s(]+)\(\)\n\s+(\S+)`)
+var raceFrameRe = regexp.MustCompile(`(?m)^\s+((?:github\.com/inspirer/textmapper/|main\.)\S+?)\(\)\n\s+(\S+)`)
 
 // raceKeys extracts "race:<func>" keys from race detector logs: a report counts when
 // one of its stacks has a frame in ls/ or in cmd/textmapper (harness files excluded).
